@@ -339,3 +339,4 @@ def check_parsers_do_not_panic(ctx, f):
         if "xml::decode::" in ins or r["name"] in ("parse", "decode", "from_str", "try_from", "base64_decode", "ascii_into"):
             entries.append(n)
     C04.check_reachable_sites(ctx, f, entries, "the CA-protocol XML parsers", 40, 40)
+    K.check_attribute_arms(ctx, f, "R-SIB", "ca::", 10)
